@@ -20,7 +20,7 @@ CLAIMS = {
          "Trusts go/ssa + VTA (over-approximate dynamic calls); no reflect/unsafe in the closure (checked).",
          "DESIGN.md §3 C17"),
  "C03": ("effect sets (make/undo write-set mirror, single writer of the hash history) + constant evaluation of the Reverse token layout + reaching-store analysis (save-before-clobber) + getter/setter sibling pairing + post-dominance (one push/pop per call) + PAIR typestate at consumers",
-         "Structural necessary conditions decided over all paths of MakeMove/UndoMove/MakeNullMove/UndoNullMove and their consumers: every field changed by a make is restored by its undo, from a token field that cannot overlap another, that was filled before the field was overwritten and is read back in the matching form; the hash history is pushed/popped exactly once per call; castling and promotion are mirrored; a field the undo restores relative to its current value (side to move, fullmove counter) is updated by the make with the inverse operation exactly once on every path, both sides reading the operand in the same state (R9). A violation implies a move whose make+undo does not return the identical position. Snapshot equality for concrete positions is not decided.",
+         "Structural necessary conditions decided over all paths of MakeMove/UndoMove/MakeNullMove/UndoNullMove and their consumers: every field changed by a make is restored by its undo, from a token field that cannot overlap another, that was filled before the field was overwritten and is read back in the matching form; the hash history is pushed/popped exactly once per call; castling and promotion are mirrored; a field the undo restores relative to its current value (side to move, fullmove counter) is updated by the make with the inverse operation exactly once on every path, both sides reading the operand in the same state (R9); the en-passant field is used as a square only where it is known to be non-zero (R10: 0 means no target, not a1). A violation implies a move whose make+undo does not return the identical position. Snapshot equality for concrete positions is not decided.",
          "Trusts go/ssa and go/types constant evaluation; token setters are assumed to be called with values inside the declared range (widths are checked against the type ranges).",
          "DESIGN.md §3 C03"),
  "C02": ("condition-atom analysis over SSA (which From/To/moved/captured tests guard each state update), reaching-store ordering, constant geometry of castling squares, dominance of the UCI gate, narrow-counter bound check",
@@ -28,7 +28,7 @@ CLAIMS = {
          "Trusts go/ssa; does not decide CanEnPassant's pin logic or equality with the FIDE successor for concrete positions.",
          "DESIGN.md §3 C02, §4 F-2"),
  "C01": ("dominance/reachability over SSA (legality filter after every make), call-site census of the generator (exhaustive and disjoint wiring), piece-attack pairing by def-use slices, constant evaluation of castling geometry, abstract interpretation of the promotion loops",
-         "Structural necessary conditions: every generated move that is played is filtered by InCheck(mover) before any descent; the two generator halves call every generator method exactly as often as needed with complementary target masks; every attack pattern is paired with the piece kinds geometry dictates; castling masks/emptiness/destination/rights are geometrically consistent; promotions enumerate exactly N,B,R,Q. A violation implies a position in which an illegal move is playable or a legal move is missing/duplicated. Equality of the generated set with FIDE move generation is not decided (perft tests + C12 remain the guard for the emitted squares).",
+         "Structural necessary conditions: every generated move that is played is filtered by InCheck(mover) before any descent; the two generator halves call every generator method exactly as often as needed with complementary target masks; every attack pattern is paired with the piece kinds geometry dictates; castling masks/emptiness/destination/rights are geometrically consistent; promotions enumerate exactly N,B,R,Q; the acceptor through which table and GUI moves enter agrees with the generator (C05.R1/R2/R4 re-evaluated), and the empty en-passant state is never read as the square a1. A violation implies a position in which an illegal move is playable or a legal move is missing/duplicated. Equality of the generated set with FIDE move generation is not decided (perft tests + C12 remain the guard for the emitted squares).",
          "Trusts go/ssa; BitBoardFromSquares/Castle helper semantics; does not decide that each generator emits the right squares.",
          "DESIGN.md §3 C01, §3.0"),
  "C05": ("exhaustive path enumeration of the loop-free acceptor with interval/atom abstraction of its branch conditions, AST constant extraction and sibling comparison against the generator's castling data, bit-field layout evaluation, dominance of the two gates, all-origins dataflow of MakeMove arguments",
@@ -64,7 +64,7 @@ CLAIMS = {
          "Trusts go/ssa; bufIx arithmetic is not decided.",
          "DESIGN.md §3 C07"),
  "C08": ("transitive nondeterminism/effect audit over the VTA closure of Search.Go with forward taint of wall-clock values (data and control dependence), guard analysis of the node counter, reader census of the soft limits",
-         "Structural necessary conditions: the only nondeterminism sources reachable from Search.Go are the wall clock (whose values reach only the info line, Counters.Time and the soft-limit test), the two channel polls and the output hand-off; no package-level state is written; the node counter is only incremented, under Nodes == -1 or Counters.Nodes < Nodes; soft limits are consulted only between iterations and a limit that is not set (<= 0) can never end the search. what Go returns is decided by completed iterations only (a kept move keeps its ponder move), and a soft stop is taken only with a move in hand, as the hard-budget replay's fallback presumes. Equality of two runs is not decided.",
+         "Structural necessary conditions: the only nondeterminism sources reachable from Search.Go are the wall clock (whose values reach only the info line, Counters.Time and the soft-limit test), the two channel polls and the output hand-off; no package-level state is written; the node counter is only incremented, under Nodes == -1 or Counters.Nodes < Nodes; soft limits are consulted only between iterations and a limit that is not set (<= 0) can never end the search. what Go returns is decided by completed iterations only (a kept move keeps its ponder move), and a soft stop is taken only with a move in hand, as the hard-budget replay's fallback presumes; an output line is not handed back to the buffer pool while it (or a slice aliasing it) is still being written (R7). Equality of two runs is not decided.",
          "VTA over-approximates dynamic calls; std callees outside time/rand/runtime/os are taken to be deterministic.",
          "DESIGN.md §3 C08"),
  "C18": ("SSA loop model of the swap algorithm (tests, back edges, phis), piece-attack pairing, must-dataflow for least-valuable-attacker order with fixpoint meaning of the start markers, parity/balance evaluators for the early exits, occupancy dataflow for x-ray refreshes and entry bookkeeping",
@@ -72,7 +72,7 @@ CLAIMS = {
          "Trusts go/ssa; PieceValues literal must be immutable (checked).",
          "DESIGN.md §3 C18, §3.0"),
  "C13": ("ownership/effect analysis of the output sink, channel typestate (one make, at most one close, sends ordered before the close), goroutine join pairing on every path, dominance of the bestmove/readyok ordering, path analysis of the interrupt goroutine, captured-variable race analysis over closure bindings, shutdown-order dominance",
-         "Safety skeleton only (liveness under all interleavings is not a static property and is not claimed): one writer of the real sink and one Write per complete line; each channel is made once, closed at most once after all senders, stop/searchFin never sent on, ponderHit sent at most once on a buffered channel; every goroutine is joined on every path; Search.Go -> close(searchFin) -> Wait -> exactly one bestmove on every path; the interrupt goroutine always closes stop, can always leave through searchFin, and returns on closed input; no variable is written by a goroutine and touched by its spawner before Wait; pipeline channels are closed in order. A violation implies a command timing with a torn/missing/duplicate answer, a panic on a channel, a leaked goroutine or a data race.",
+         "Safety skeleton only (liveness under all interleavings is not a static property and is not claimed): one writer of the real sink and one Write per complete line; each channel is made once, closed at most once after all senders, stop/searchFin never sent on, ponderHit sent at most once on a buffered channel; every goroutine is joined on every path; Search.Go -> close(searchFin) -> Wait -> exactly one bestmove on every path; the interrupt goroutine always closes stop, can always leave through searchFin, and returns on closed input; no variable is written by a goroutine and touched by its spawner before Wait; pipeline channels are closed in order; a pooled line buffer is not touched after it was handed back (R10). A violation implies a command timing with a torn/missing/duplicate answer, a panic on a channel, a leaked goroutine or a data race.",
          "Trusts go/ssa and the Go memory model facts about WaitGroup.Wait and channel close; deadlock-freedom under all schedules is not decided.",
          "DESIGN.md §3 C13"),
  "C16": ("interval evaluation over SSA of the weight formulas (bands cannot overlap, also with spsa ranges), signed-term decomposition of the history gravity updates, path-by-path model of the stage machine, recognition of ranking and selection loops, one-step-per-yield dataflow",
